@@ -100,6 +100,10 @@ type BatchProcessor struct {
 	// shutdownDone is closed when the Shutdown call that performs the shutdown
 	// has finished.
 	shutdownDone chan struct{}
+	// finalFlush is set when Shutdown is about to take the remaining records
+	// out of the queue. From then on a concurrent ForceFlush leaves the queue
+	// to Shutdown, so that records are not exported out of order.
+	finalFlush atomic.Bool
 
 	noCmp [0]func() //nolint: unused  // This is indeed used.
 }
@@ -233,6 +237,7 @@ func (b *BatchProcessor) Shutdown(ctx context.Context) error {
 	}
 
 	// Flush remaining queued before exporter shutdown.
+	b.finalFlush.Store(true)
 	err := b.exporter.Export(ctx, b.q.Flush())
 	return errors.Join(err, b.exporter.Shutdown(ctx))
 }
@@ -254,6 +259,11 @@ func (b *BatchProcessor) ForceFlush(ctx context.Context) error {
 	notFlushed := func() bool {
 		var flushed bool
 		_ = b.q.TryDequeue(buf, func(r []Record) bool {
+			if b.finalFlush.Load() {
+				// Shutdown exports what is left in the queue.
+				flushed = true
+				return false
+			}
 			flushed = b.exporter.EnqueueExport(r)
 			return flushed
 		})
